@@ -174,7 +174,11 @@ pub fn run(a: &Args) -> i32 {
                         // types derived from that same operation
                         let vars: Vec<String> = find_item(&m.items, "struct", "Variables").map(|v| struct_fields(v).iter().map(|f| f.wire().to_string()).collect()).unwrap_or_default();
                         let want_vars: Vec<String> = op.vars.iter().map(|v| v.name.clone()).collect();
-                        if vars != want_vars {
+                        // (the same SET of variables: the order of the members is not promised)
+                        let (mut vars_sorted, mut want_sorted) = (vars.clone(), want_vars.clone());
+                        vars_sorted.sort();
+                        want_sorted.sort();
+                        if vars_sorted != want_sorted {
                             rep.fail("variables-of-another-operation", case(json!({"operation": op.name, "expected": want_vars, "got": vars})));
                         }
                         let mut want_keys = Vec::new();
@@ -217,6 +221,11 @@ pub fn run(a: &Args) -> i32 {
                         rep.fail("generation-failed", case(json!({"error": msg})));
                     }
                 }
+                // the generator succeeded but the extractor cannot read a construct of the emitted code: a broken tie (the
+                // IR-based oracles cannot run), not a refusal of the input
+                (RealOutcome::Ok(_), None) => {
+                    rep.disagree(json!({"what": "the emitted tokens could not be read into the IR", "file": "c05.rs"}));
+                }
                 (other, _) => rep.fail("generation-failed", case(json!({"outcome": format!("{:?}", other)}))),
             }
         }
@@ -258,7 +267,9 @@ pub fn run(a: &Args) -> i32 {
             None => rep.fail("derive-falls-back-to-another-operation", json!({"what": "a derive on a struct that names no operation compiled", "operations": ops})),
             Some(errs) => {
                 let text = errs.join("\n");
-                if !text.contains("does not match any defined operation") {
+                // "generation fails naming the available operations": every operation name must occur in the diagnostic
+                // (whatever its wording)
+                if !ops.iter().all(|o| text.contains(o.as_str())) {
                     rep.fail("derive-error-does-not-list-operations", json!({"errors": errs, "operations": ops}));
                 }
             }
